@@ -888,6 +888,13 @@ func verifyRaw(clause string, m *msggen.Message, sub *twin, raw, trailerSection 
 	if unknown {
 		shape = "request-of-unknown-length"
 	}
+	// What goes wrong in the trailer section of a chunked message is named by
+	// that shape whatever else the message is (OPTIONS *, CONNECT, ...): the
+	// open finding on the unterminated trailer section has one signature.
+	tshape := shape
+	if m.TrailerPresent {
+		tshape = m.Framing + "-with-trailers"
+	}
 	// fields net/http moves out of the header map are looked for in the bytes
 	var lines []string
 	if i := bytes.Index(raw, []byte("\r\n\r\n")); i >= 0 {
@@ -1015,19 +1022,19 @@ func verifyRaw(clause string, m *msggen.Message, sub *twin, raw, trailerSection 
 		}
 		sort.Strings(got)
 		if want := descHeaders(m.Trailers); strings.Join(got, "\n") != strings.Join(want, "\n") {
-			v.Addf(clause+shape+"/trailer-section-differs", "the snapshot's trailer section holds %q, the message carries %q", got, want)
+			v.Addf(clause+tshape+"/trailer-section-differs", "the snapshot's trailer section holds %q, the message carries %q", got, want)
 		}
 	}
 	data, err := io.ReadAll(body)
 	if err != nil {
-		v.Addf(clause+shape+"/not-reparseable", "reading the body of the re-parsed snapshot fails: %v (tail of the snapshot: %q)", err, raw[max(0, len(raw)-60):])
+		v.Addf(clause+tshape+"/not-reparseable", "reading the body of the re-parsed snapshot fails: %v (tail of the snapshot: %q)", err, raw[max(0, len(raw)-60):])
 		return v
 	}
 	if !bytes.Equal(data, m.Entity) {
 		v.Addf(clause+shape+"/body-differs", "snapshot body: %s", kit.Diff(m.Entity, data))
 	}
 	if got, want := multiset(*trailer), descHeaders(m.Trailers); strings.Join(got, "\n") != strings.Join(want, "\n") {
-		v.Addf(clause+shape+"/trailers-differ", "snapshot trailers %q, message trailers %q", got, want)
+		v.Addf(clause+tshape+"/trailers-differ", "snapshot trailers %q, message trailers %q", got, want)
 	}
 	return v
 }
